@@ -384,3 +384,44 @@ func stable(pos string) string {
 
 	return pos
 }
+
+func recordAppend[T any](pos string, s []T, n int) {
+	sim := cur()
+	if sim == nil || sim.race == nil || sim.cur == nil {
+		return
+	}
+
+	full := s[:cap(s)]
+
+	if len(s)+n <= cap(s) {
+		// appended in place: the spare elements of the shared backing array are written
+		for i := len(s); i < len(s)+n; i++ {
+			Access(unsafe.Pointer(&full[i]), true, pos)
+		}
+
+		return
+	}
+
+	// reallocation: the old elements are read (copied)
+	for i := range s {
+		Access(unsafe.Pointer(&s[i]), false, pos)
+	}
+}
+
+// Append replaces append(s, vals...) with explicit elements (race mode).
+func Append[T any](pos string, s []T, vals ...T) []T {
+	recordAppend(pos, s, len(vals))
+
+	return append(s, vals...)
+}
+
+// AppendSlice replaces append(s, t...) (race mode).
+func AppendSlice[T any](pos string, s []T, t []T) []T {
+	recordAppend(pos, s, len(t))
+
+	for i := range t {
+		Access(unsafe.Pointer(&t[i]), false, pos)
+	}
+
+	return append(s, t...)
+}
